@@ -12,6 +12,22 @@ Definition case06 := ((bool * bool * bool) * list N * list pline * list (op * ob
 
 Definition texts_of (st : sess) : list (list N) := map ptext (s_lines st).
 
+(* tie of the index model: on a committed ios state (auto_indent_width 1) the observed insertion must be explained by
+   the index atf_child_index computes whenever the payload is indented exactly one deeper than the target *)
+Definition atf_index_agrees (o : popts) (st : sess) (p : op) : bool :=
+  match p with
+  | OAtf i k x =>
+      if s_dirty st || negb (o_macro o) then true else
+      let ls := s_lines st in
+      let li := linfo_of (o_delims o) (ptext (nth i ls (PL [] None))) in
+      let lx := linfo_of (o_delims o) (ptext x) in
+      match atf_child_index (tree_parents o ls) i (ind li) (ind lx) with
+      | Some k' => list_eqb pline_text_eqb (insert_at k' x ls) (insert_at k x ls)
+      | None => true
+      end
+  | _ => true
+  end.
+
 Fixpoint check_steps (o : popts) (ac : bool) (tree : bool) (st : sess) (steps : list (op * obs)) : bool :=
   match steps with
   | [] => true
@@ -19,7 +35,7 @@ Fixpoint check_steps (o : popts) (ac : bool) (tree : bool) (st : sess) (steps : 
       match step o ac st p, ob with
       | Raise _, None => check_steps o ac tree st r
       | Ok st', Some (ts, ps, sr) =>
-          list_eqb str_eqb ts (texts_of st') &&
+          list_eqb str_eqb ts (texts_of st') && atf_index_agrees o st p &&
           (if tree && negb (s_dirty st') && (ac || match p with OCommit => true | _ => false end)
            then list_eqb (opt_eqb Nat.eqb) ps (tree_parents o (s_lines st')) else true) &&
           (if tree then match sr with
